@@ -184,3 +184,18 @@ Definition diff_where (a b : snap) : list nat * list nat :=
    ++ (if bool_decide (sn_logs a = sn_logs b) then [] else [5%nat]) ++ (if bool_decide (sn_store a = sn_store b) then [] else [6%nat]),
    omap (fun ab => if bool_decide (fst ab = snd ab) then None else Some (js_id (fst ab))) (zip (sn_jobs a) (sn_jobs b))
    ++ (if Nat.eqb (length (sn_jobs a)) (length (sn_jobs b)) then [] else [999%nat])).
+
+(** ** the dependency check of the scheduling loop as a decision table (harness schedtab): a stage "t" (name 100) whose
+    dependencies 0..k-1 have the given status and allow_failure, in this depends_on order *)
+Definition check_status_case (deps : list (status * bool)) : bool * bool :=
+  let names := seq 0%nat (length deps) in
+  let mk (n : nat) (ds : list nat) (allow : bool) (st : status) :=
+    JTask n (TaskDef ds allow false 0%nat 0%nat) st None None false 0%Z false None false in
+  let tasks := imap (fun i d => mk i [] (snd d) (fst d)) deps ++ [mk 100%nat names false Waiting] in
+  let j := Job 0%nat 0%Z None None false false 0%nat false tasks 0%nat VNone 0%nat None None 0%nat false false in
+  let sc := Sched (imap (fun i d => (i, fst d)) deps ++ [(100%nat, Waiting)]) false false PTop [] [] None in
+  check_status sc j 100%nat.
+
+Definition check_status_mismatches (cs : list (nat * list (status * bool) * bool * bool)) : list nat :=
+  map (fun c => c.1.1.1) (List.filter (fun c : nat * list (status * bool) * bool * bool =>
+    negb (bool_decide (check_status_case c.1.1.2 = (c.1.2, c.2)))) cs).
